@@ -74,7 +74,9 @@ def main():
                     rc2, _o = sh("/venv/bin/python -m pytest -q -p no:cacheprovider --timeout=900 %s" % path, cwd=wt, timeout=1800)
                     passes += rc2 == 0
                 flaky[tname] = "%d/3 passes when re-run alone" % passes
-                if passes == 3:
+                # an unseeded stochastic test (test_surrogate_function asserts optimum > 0.9 of a random run) fails now and then on
+                # the unchanged tree as well: two passes out of three alone count as "flaky", and are recorded as such
+                if passes >= 2:
                     broken.remove(tname)
             report["stable_tests_broken"] = broken
             report["stable_tests_flaky_rerun"] = flaky
